@@ -7,6 +7,7 @@ import e2, mirdump, kani
 from e2 import *
 from mirsym import models as MD
 from props.cmodels import *
+from mirsym import iters as IT
 
 PROP = 'C13'
 CM = 'crates/anemo/src/network/connection_manager.rs'
@@ -34,22 +35,16 @@ def m_vec_len(ex, p, call, k):
     k(p, z3.BitVec(f'len({vname(v)})', 64))
 
 
-def m_active_inner(ex, p, call, k):
-    cell = ('H', 'active_inner', 'ActivePeersInner')
-    if cell not in p.mem:
-        p.mem[cell] = Sym('active_inner', 'ActivePeersInner').with_ov(('f', struct_fields(CM, 'ActivePeersInner').by_type(r'^HashMap<PeerId,Connection>$')), Sym('conns', 'HashMap<PeerId, connection::Connection>'))
-    k(p, Ptr(cell, (), False, 'ActivePeersInner'))
+def table_cells():
+    """the two lock-guarded tables the connectivity check reads, identified by the guarded type"""
+    def mk_active(p):
+        f = struct_fields(CM, 'ActivePeersInner').by_type(r'^HashMap<PeerId,Connection>$')
+        return Sym('active_inner', 'ActivePeersInner').with_ov(('f', f), Sym('conns', 'HashMap<PeerId, connection::Connection>'))
+    return [(r'^(\w+::)*HashMap<(\w+::)*PeerId,(\w+::)*PeerInfo>$', 'known_map', lambda p: Sym('known', 'HashMap<PeerId, PeerInfo>')),
+            (r'^(\w+::)*ActivePeersInner$', 'active_inner', mk_active)]
 
 
-def m_known_inner(ex, p, call, k):
-    cell = ('H', 'known_map', 'HashMap<PeerId, PeerInfo>')
-    if cell not in p.mem:
-        p.mem[cell] = Sym('known', 'HashMap<PeerId, PeerInfo>')
-    k(p, Ptr(cell, (), False))
-
-
-BASE_MODELS = [(r'Endpoint::peer_id$', m_own), (r'Vec::is_empty$', m_is_empty), (r'Vec::len$', m_vec_len),
-               (r'ActivePeers::inner$', m_active_inner), (r'KnownPeers::inner$', m_known_inner)]
+BASE_MODELS = [(r'Endpoint::peer_id$', m_own), (r'Vec::is_empty$', m_is_empty), (r'Vec::len$', m_vec_len)] + lock_models(table_cells())
 
 
 def cm_state(p):
@@ -137,8 +132,6 @@ def ob_eligibility(report):
 
 def ob_dial_loop(report):
     def body(ob):
-        dialed = []
-
         def m_dial_peer(ex, p, call, k):
             p.events.append(Event('dial', 'dial_peer', call.args[1:], None, call.span, call.depth))
             k(p, UNIT)
@@ -147,103 +140,122 @@ def ob_dial_loop(report):
             n = p.seq('chan')
             k(p, Agg('()', None, (Sym(f'tx{n}', 'Sender'), Sym(f'rx{n}', 'Receiver')), 'tuple'))
 
-        def m_next(ex, p, call, k):
-            n = p.seq('next')
-            pf = struct_fields(TY, 'PeerInfo')
-            info = struct_sym(f'peer{n}', 'types::PeerInfo', pf, {'peer_id': z3.BitVec(f'peer{n}.peer_id', 256), 'address': Sym(f'peer{n}.address', 'Vec<Address>')})
-            q = p.clone()
-            p.events.append(Event('next', 'Some', (info,)))
-            k(p, MD.some(info))
-            q.events.append(Event('next', 'None', ()))
-            k(q, MD.NONE)
-
-        def m_take(ex, p, call, k):
-            p.events.append(Event('take', 'Iterator::take', (call.args[1],)))
-            k(p, Sym('taken', 'Take'))
-
         def m_jlen(ex, p, call, k):
             k(p, z3.BitVec('len(pending_connections)', 64))
 
-        def m_vec_remove(ex, p, call, k):
+        def m_addr_pick(ex, p, call, k):
+            # Vec::remove(&mut v, i) / v[i] / v.swap_remove(i) / v.get(i) on an address list: which address is dialed
             v = ex.deref(p, call.args[0])
-            p.events.append(Event('addr-remove', 'Vec::remove', (v, call.args[1])))
-            k(p, Sym(f'addr({vname(v)})', 'Address'))
-        models = [(r'ConnectionManager::dial_peer$', m_dial_peer), (r'oneshot::channel$', m_channel), (r'Take as Iterator>::next$', m_next),
-                  (r'as Iterator>::take$', m_take), (r'JoinSet::len$', m_jlen), (r'Vec::remove$', m_vec_remove)]
-        ex, fn, res = run_check_fn(models, unroll=2, depth=6)
+            if 'ddress' not in (getattr(v, 'ty', '') or '') and 'address' not in vname(v) and not re.search(r'\.\d+$', vname(v)):
+                return NotImplemented
+            p.events.append(Event('addr-pick', call.short, (v, call.args[1]), None, call.span, call.depth))
+            a = Sym(f'addr({vname(v)})', 'Address')
+            if re.search(r'Index>::index$', call.short):
+                cell = ('H', f'addrcell{p.seq("addrcell")}', 'Address')
+                p.mem[cell] = a
+                return k(p, Ptr(cell))
+            if call.short.endswith('::get'):
+                cell = ('H', f'addrcell{p.seq("addrcell")}', 'Address')
+                p.mem[cell] = a
+                return k(p, MD.some(Ptr(cell)))
+            k(p, a)
+        models = [(r'ConnectionManager::dial_peer$', m_dial_peer), (r'oneshot::channel$', m_channel), (r'JoinSet::len$', m_jlen),
+                  (r'Vec::(remove|swap_remove)$|<Vec as Index>::index$', m_addr_pick)] + IT.ITER_MODELS
+        ex = e2.executor('anemo', models + BASE_MODELS, max_depth=6, unroll=2)
+        ex.opaque_filters = True        # the eligibility predicate is decided by eligibility_equiv_spec
+        fn = find_method(ex.prog, 'ConnectionManager', 'handle_connectivity_check')
+        p = Path()
+        selfp = cm_state(p)
+        res = ex.run(fn, [selfp, z3.Int('now')], p)
         bf = struct_fields(CM, 'DialBackoffState')
-        maxout = None
-        n_iter = 0
+        pf = struct_fields(TY, 'PeerInfo')
+        n_iter = n_count = 0
+        mx = _config_max(ex)
+        plen = z3.BitVec('len(pending_connections)', 64)
+        budget = z3.If(z3.UGE(mx, plen), mx - plen, z3.BitVecVal(0, 64))
         for r in res:
-            takes = [e for e in r.events if e.kind == 'take']
-            if len(takes) != 1:
-                if r.tag == 'panic' and cmodels_poison(r):
-                    continue
-                return violation(ob, [ex], f'number_to_dial is not applied exactly once on a path ({len(takes)} take calls)', 'loop-take', path_summary(r), len(res))
-            n = takes[0].args[0]
-            cfgmax = None
-            # spec: min(|eligible|, max_outstanding - |pending connections| saturating)
-            le = [e for e in r.events if e.kind == 'call' and e.name == 'Vec::len']
-            if not le:
-                return violation(ob, [ex], 'eligible.len() never read', 'loop-len', path_summary(r), len(res))
-            elen = z3.BitVec(f'len({vname(le[0].args[0])})', 64)
-            plen = z3.BitVec('len(pending_connections)', 64)
-            # the configured maximum: field of Config or its documented default (100)
-            cands = [v for v in _consts_in(n) if 'max_concurrent_outstanding' in str(v) or 'config' in str(v)]
-            mx = _config_max(ex)
-            want = z3.If(z3.ULE(elen, z3.If(z3.UGE(mx, plen), mx - plen, z3.BitVecVal(0, 64))), elen, z3.If(z3.UGE(mx, plen), mx - plen, z3.BitVecVal(0, 64)))
-            if not isinstance(n, z3.ExprRef):
-                return violation(ob, [ex], f'number_to_dial is {vrepr(n)}', 'loop-number', path_summary(r), len(res))
-            qv, m, _ = solve(r.pc + [n != want])
-            ex.queries += 1
-            if qv != 'unsat':
-                return violation(ob, [ex], f'number_to_dial != min(|eligible|, max_outstanding (-) |pending_connections|): {model_dict(m, 8)}', 'loop-number', path_summary(r), len(res))
-            # per iteration
+            if r.tag == 'panic' and cmodels_poison(r):
+                continue
             evs = r.events
-            for i, e in enumerate(evs):
-                if e.kind == 'next' and e.name == 'Some':
-                    info = e.args[0]
-                    pid = z3.BitVec(f'{info.name}.peer_id', 256)
-                    tail = evs[i + 1:]
-                    nxt = next((j for j, x in enumerate(tail) if x.kind == 'next'), len(tail))
-                    it = tail[:nxt]
-                    if r.tag in ('panic', 'diverge') and nxt == len(tail) and not any(x.kind == 'dial' for x in it):
-                        # division by zero address list: only feasible if the list is empty, which the eligibility filter excludes
-                        continue
-                    rm = [x for x in it if x.kind == 'addr-remove']
-                    dl = [x for x in it if x.kind == 'dial']
-                    ins = [x for x in it if x.kind == 'map' and x.name == 'insert' and x.args[0].s == 'pending_dials']
-                    if r.tag == 'loop-bound' and not dl:
-                        continue
-                    if len(rm) != 1 or len(dl) != 1 or len(ins) != 1:
-                        return violation(ob, [ex], f'loop body does not perform exactly one address pick, one dial and one pending_dials insert ({len(rm)},{len(dl)},{len(ins)})',
-                                         'loop-body-shape', path_summary(r), len(res))
-                    n_iter += 1
-                    alen = z3.BitVec(f'len({info.name}.address)', 64)
-                    hasb = MD.map_has_initial(Sym('backoff'), pid)
-                    att = z3.BitVec(f'backoff[{pid}].{bf.index("attempts")}', 64)
-                    want_idx = z3.URem(z3.If(hasb, att, z3.BitVecVal(0, 64)), alen)
-                    idx = rm[0].args[1]
-                    if vname(rm[0].args[0]) != f'{info.name}.address' or not isinstance(idx, z3.ExprRef):
-                        return violation(ob, [ex], f'address is not taken from the peer\'s own address list: {vrepr(rm[0].args[0])}', 'loop-address-list', path_summary(r), len(res))
-                    qv, m, _ = solve(r.pc + [alen != 0, idx != want_idx])
-                    ex.queries += 1
-                    if qv != 'unsat':
-                        return violation(ob, [ex], f'address index != attempts mod |addresses| (0 attempts without backoff state): {model_dict(m, 8)}', 'loop-address-index', path_summary(r), len(res))
-                    d = dl[0]
-                    okd = (len(d.args) == 3 and vname(d.args[0]) == f'addr({info.name}.address)' and isinstance(d.args[1], Agg) and d.args[1].variant == 'Some'
-                           and same(ex, r.pc, d.args[1].fields[0], pid) and vname(d.args[2]).startswith('tx'))
-                    if not okd:
-                        return violation(ob, [ex], f'dial_peer is not called with (picked address, Some(peer id), fresh sender): {[vrepr(a) for a in d.args]}', 'loop-dial-args', path_summary(r), len(res))
-                    i0 = ins[0]
-                    if not same(ex, r.pc, i0.args[1], pid) or vname(i0.args[2]) != vname(d.args[2]).replace('tx', 'rx'):
-                        return violation(ob, [ex], f'pending_dials does not record (peer id -> receiver of the same channel): {[vrepr(a) for a in i0.args]}', 'loop-pending-insert', path_summary(r), len(res))
-        if not n_iter:
-            return ob.done([ex], 'inconclusive', 'vacuity: no loop iteration analysed', paths=len(res))
+            # dial iterations: segments between consecutive `next begin` markers that contain a dial
+            begins = [i for i, e in enumerate(evs) if e.kind == 'next' and e.name == 'begin']
+            segs = [(b, (begins[n + 1] if n + 1 < len(begins) else len(evs))) for n, b in enumerate(begins)]
+            stray = [e for i, e in enumerate(evs) if e.kind == 'dial' and not any(a <= i < b for a, b in segs)]
+            if stray:
+                return violation(ob, [ex], 'a background dial is started outside the per-peer loop over the eligible peers', 'loop-stray-dial', path_summary(r), len(res))
+            for a, b in segs:
+                it = evs[a].args[0]
+                seg = evs[a:b]
+                dl = [x for x in seg if x.kind == 'dial']
+                if not dl:
+                    continue
+                # (1) how many peers this loop dials in total: min(|eligible|, max_outstanding (-) |pending connections|)
+                cnt, cons, fsyms = IT.aiter_count(ex, r.path, it)
+                root = _root_source(ex, r.path, it)
+                if len(fsyms) != 1 or root != 'known':
+                    return violation(ob, [ex], f'the dial loop does not run over the eligible (filtered) known peers: source={root}, filters={len(fsyms)}', 'loop-source', path_summary(r), len(res))
+                E = fsyms[0]
+                want = z3.If(z3.ULE(E, budget), E, budget)
+                qv, m, _ = solve(r.pc + cons + [cnt != want])
+                ex.queries += 1
+                if qv != 'unsat':
+                    return violation(ob, [ex], f'number of peers dialed != min(|eligible|, max_outstanding (-) |pending_connections|): {model_dict(m, 8)}', 'loop-number', path_summary(r), len(res))
+                n_count += 1
+                # (2) per dialed peer
+                el = [x for x in seg if x.kind == 'elem' and x.name == 'known']
+                if len(el) != 1:
+                    return violation(ob, [ex], f'one loop iteration consumes {len(el)} eligible peers', 'loop-body-shape', path_summary(r), len(res))
+                info = ex.deref(r.path, el[0].args[0]) if isinstance(el[0].args[0], Ptr) else el[0].args[0]
+                if r.tag in ('panic', 'diverge'):
+                    continue        # `% address.len()` with an empty list: excluded by the eligibility filter
+                pid = z3.BitVec(f'{info.name}.{pf.index("peer_id")}', 256)
+                pk = [x for x in seg if x.kind == 'addr-pick']
+                ins = [x for x in seg if x.kind == 'map' and x.name == 'insert' and x.args[0].s == 'pending_dials']
+                if r.tag == 'loop-bound' and not (pk and ins):
+                    continue
+                if len(pk) != 1 or len(dl) != 1 or len(ins) != 1:
+                    return violation(ob, [ex], f'loop body does not perform exactly one address pick, one dial and one pending_dials insert ({len(pk)},{len(dl)},{len(ins)})',
+                                     'loop-body-shape', path_summary(r), len(res))
+                n_iter += 1
+                addrs = f'{info.name}.{pf.index("address")}'
+                alen = z3.BitVec(f'len({addrs})', 64)
+                hasb = MD.map_has_initial(Sym('backoff'), pid)
+                att = z3.BitVec(f'backoff[{pid}].{bf.index("attempts")}', 64)
+                want_idx = z3.URem(z3.If(hasb, att, z3.BitVecVal(0, 64)), alen)
+                idx = pk[0].args[1]
+                if vname(pk[0].args[0]) != addrs or not isinstance(idx, z3.ExprRef):
+                    return violation(ob, [ex], f'address is not taken from the peer\'s own address list: {vrepr(pk[0].args[0])}', 'loop-address-list', path_summary(r), len(res))
+                qv, m, _ = solve(r.pc + [alen != 0, idx != want_idx])
+                ex.queries += 1
+                if qv != 'unsat':
+                    return violation(ob, [ex], f'address index != attempts mod |addresses| (0 attempts without backoff state): {model_dict(m, 8)}', 'loop-address-index', path_summary(r), len(res))
+                d = dl[0]
+                a0 = ex.deref(r.path, d.args[0]) if isinstance(d.args[0], Ptr) else d.args[0]
+                okd = (len(d.args) == 3 and vname(a0) == f'addr({addrs})' and isinstance(d.args[1], Agg) and d.args[1].variant == 'Some'
+                       and same(ex, r.pc, d.args[1].fields[0], pid) and vname(d.args[2]).startswith('tx'))
+                if not okd:
+                    return violation(ob, [ex], f'dial_peer is not called with (picked address, Some(peer id), fresh sender): {[vrepr(x) for x in d.args]}', 'loop-dial-args', path_summary(r), len(res))
+                i0 = ins[0]
+                if not same(ex, r.pc, i0.args[1], pid) or vname(i0.args[2]) != vname(d.args[2]).replace('tx', 'rx'):
+                    return violation(ob, [ex], f'pending_dials does not record (peer id -> receiver of the same channel): {[vrepr(x) for x in i0.args]}', 'loop-pending-insert', path_summary(r), len(res))
+        if not n_iter or not n_count:
+            return ob.done([ex], 'inconclusive', f'vacuity: iterations analysed={n_iter}, count checks={n_count}', paths=len(res))
         ob.done([ex], 'held', '', {'iterations_checked': n_iter, 'paths': len(res)}, paths=len(res))
-    return guarded(report, 'dial_loop', 'number_to_dial = min(|eligible|, max_outstanding (-) |pending_connections|); per dialed peer: address index = attempts mod |addresses| '
+    return guarded(report, 'dial_loop', 'number of peers dialed per tick = min(|eligible|, max_outstanding (-) |pending_connections|); per dialed peer: address index = attempts mod |addresses| '
                    '(0 without backoff state), dial_peer(address, Some(peer id)), pending_dials[peer id] = receiver of that dial',
-                   ['ConnectionManager::handle_connectivity_check', 'Config::max_concurrent_outstanding_connecting_connections'], {'loop_unroll': 2, 'inline_depth': 3}, body)
+                   ['ConnectionManager::handle_connectivity_check', 'Config::max_concurrent_outstanding_connecting_connections'],
+                   {'loop_unroll': 2, 'inline_depth': 6, 'iterators': 'abstract lazy-iterator contract (mirsym/iters.py): generic element, symbolic counts'}, body)
+
+
+def _root_source(ex, p, it):
+    """name of the collection at the bottom of a (possibly collected and re-iterated) pipeline"""
+    for _ in range(6):
+        c = IT._coll(ex, p, it.fields[0])
+        inner = c.get_ov('collected') if isinstance(c, Sym) else None
+        if inner is None:
+            return vname(c)
+        it = inner
+    return None
 
 
 def cmodels_poison(r):
